@@ -51,3 +51,14 @@ package ammo
 //@ props C20 C13
 //@ modifies nothing
 //@ ensures result == !a.isInvalid
+
+//@ func NewProvider
+//@ props C08 C20
+//@ ensures [an-open-queue-over-the-named-file] result.fs == fs && result.fileName == fileName && cap(result.Sink) == 128 && !closed(result.Sink) && sent(result.Sink) == 0 && result.Close != nil
+
+// Released ammo goes back to the pool the decoder takes its ammo from.
+//@ func (p *Provider) Release
+//@ props C03 C20
+//@ env pooltype(p.Pool, *Ammo)
+//@ requires typeis(a, *Ammo)
+//@ ensures [pooled-once] calls(p.Pool.Put) == 1
